@@ -404,7 +404,7 @@ def snapshot_template(tpl):
 
 READ_ONLY_OPS = ["get_nodes", "get_edges", "get_edge", "collect_edges", "get_node_template", "getitem", "to_yaml", "deepcopy",
                  "update_template", "get_run_func", "get_jacobian_func", "run", "derive_op_plain", "derive_op_vars", "derive_node",
-                 "run_inputs", "derive_op_vars_dict", "compile_sibling_with_override"]
+                 "run_inputs", "derive_op_vars_dict", "compile_sibling_with_override", "derive_circuit_edit_edge", "derive_circuit_from_edgeless"]
 
 
 def do_read_only(tpl, model, op):
@@ -442,6 +442,26 @@ def do_read_only(tpl, model, op):
     elif op == "run":
         tpl.run(simulation_time=0.2, step_size=0.05, solver="euler", outputs={"o": mdl.state_vars(model)[0]}, vectorize=False,
                 verbose=False, clear=True, in_place=False, float_precision="float64")
+    elif op == "derive_circuit_edit_edge":
+        # a circuit DERIVED with update_template(edges=[one more edge]); an inherited edge is then changed on the variant only
+        if tpl.edges:
+            e0 = tpl.edges[0]
+            variant = tpl.update_template(name="variant", edges=[(e0[0], e0[1], None, {"weight": 0.123})])
+            variant.update_var(edge_vars=[(e0[0], e0[1], {"weight": 7.0})])
+    elif op == "derive_circuit_from_edgeless":
+        # deriving a circuit from one WITHOUT edges must not give the base any edge
+        from pyrates import CircuitTemplate
+        if tpl.nodes:
+            base = CircuitTemplate(name="edgeless", nodes=dict(tpl.nodes))
+            labs = list(tpl.nodes)
+            nt = tpl.nodes[labs[0]]
+            op0 = next(iter(nt.operators))
+            svs = [k for k, v in op0.variables.items() if (isinstance(v, str) and v.startswith(("output", "variable"))) or (isinstance(v, dict) and v.get("vtype") in ("output", "variable", "state_var"))]
+            ins = [k for k, v in op0.variables.items() if (isinstance(v, str) and v.startswith("input")) or (isinstance(v, dict) and v.get("vtype") == "input")]
+            if svs and ins and len(labs) > 1:
+                base.update_template(name="with_edge", edges=[(f"{labs[0]}/{op0.name}/{svs[0]}", f"{labs[1]}/{op0.name}/{ins[0]}", None, {"weight": 2.0})])
+                if base.edges:
+                    raise AssertionError(f"deriving a circuit added {len(base.edges)} edge(s) to its edgeless base")
     elif op == "compile_sibling_with_override":
         # ANOTHER circuit built from the same OperatorTemplate object, whose node overrides a value, is compiled (caches kept, the
         # default of get_run_func): neither template is touched and the first one's results must not change
